@@ -189,9 +189,17 @@ def random_worker(job):
                 os.utime(p_, ns=(max(0, now_ns - age2), max(0, now_ns - age)))
                 for j in range(rng.choice([0, 0, 0, 1, 3])):
                     os.link(p_, os.path.join(d, "f%02d_l%d" % (i, j)))
+            # a mount point below the starting point: its status record (inode number, link count, times) is that of the mounted
+            # file system's root, not what the directory listing of d says
+            import subprocess
+            os.mkdir(os.path.join(d, "mnt"))
+            if subprocess.run(["mount", "-t", "tmpfs", "-o", "size=64k", "none", os.path.join(d, "mnt")], capture_output=True).returncode == 0:
+                st.inc("rounds_with_a_mount_point")
+            else:
+                st.inc("mount_not_permitted")
             ents = ["d"] + sorted("d/" + n for n in os.listdir(d))
             lst = {p_: os.lstat(os.path.join(sb, p_)) for p_ in ents}
-            triples = []
+            triples = [("-inum", lst["d/mnt"].st_ino), ("-inum", lst["d/mnt"].st_ino + 1), ("-links", lst["d/mnt"].st_nlink)]
             kinds = ["-size" + s_ for s_ in ("c", "w", "b", "", "k", "M", "G")] + ["-links", "-inum", "-uid", "-gid", "-mtime", "-atime", "-mmin",
                                                                                      "-amin", "-ctime", "-cmin"]
             for kind in kinds:
